@@ -57,6 +57,9 @@ type Cfg struct {
 	// really has - the stale-message filter, then receiveInternal - as two scheduler steps, so that the
 	// requests of two concurrent Receive calls interleave between them.
 	SplitReceive bool `json:"split_receive,omitempty"`
+	// Prefix: moves executed first, without choice ("op:<node>", "rpc:<from>><to>:<type>", "recv:...",
+	// "reply:..."); the enumeration covers every continuation of that prefix.
+	Prefix []string `json:"prefix,omitempty"`
 }
 
 func (c *Cfg) name() string {
@@ -83,6 +86,9 @@ func (c *Cfg) name() string {
 	}
 	if c.SplitReceive {
 		at += "/split-receive"
+	}
+	if len(c.Prefix) > 0 {
+		at += fmt.Sprintf("/after-prefix(%d moves)", len(c.Prefix))
 	}
 	if c.Budget > 0 && len(c.Faults) == 1 {
 		at += "/only-" + c.Faults[0]
@@ -278,13 +284,20 @@ type node struct {
 	lastPCTime       int64          // SenderTime of this node's latest PreCommit broadcast
 	attempts         []*attemptRec  // this node's proposals
 	acceptedAt       map[accKey]int // event number at which this node accepted the pre-commit (sender, SenderTime)
+	overridden       *promise       // a promise this replica gave and then overwrote with a higher-version pre-commit of someone else, not yet installed
+	forgot           []promise      // overridden promises whose overriding proposal was then released by Abort: the replica is unlocked below a version it promised
 	committedPC      map[int64]bool // SenderTimes of the PreCommit broadcasts whose section went on to Commit
 	commits          int
 }
 
+// ops: R read, W write, P PreCommit, C Commit, X = the section is aborted after its successful pre-commit
+// (script kind "rmwa": a sibling resource of the same critical section always refuses, as in MPCalContext.abort)
 func (n *node) ops() string {
-	if n.script[n.sec] == "rmw" {
+	switch n.script[n.sec] {
+	case "rmw":
 		return "RWPC"
+	case "rmwa":
+		return "RWPX"
 	}
 	return "WPC"
 }
@@ -319,6 +332,14 @@ type accKey struct {
 type winner struct {
 	node, sec, attempt int
 	val                string
+	pcTime             int64 // SenderTime of the winning PreCommit broadcast
+}
+
+// promise: a pre-commit a replica accepted (sender, version, SenderTime)
+type promise struct {
+	sender, version int
+	time            int64
+	by              int // overridden: the proposer whose higher-version pre-commit replaced it
 }
 
 type sleeper struct {
@@ -424,6 +445,17 @@ type move struct {
 	kind string // recv reply op time | drop-req drop-reply dup sibling-abort
 	m    *msg
 	n    int
+}
+
+// spec is the form in which a move is written in Cfg.Prefix.
+func (mv move) spec() string {
+	switch mv.kind {
+	case "op":
+		return "op:" + strconv.Itoa(mv.n)
+	case "time":
+		return "time"
+	}
+	return fmt.Sprintf("%s:%d>%d:%s", mv.kind, mv.m.from, mv.m.to, mv.m.req.RequestType)
 }
 
 func (mv move) String() string {
@@ -697,6 +729,38 @@ func (w *world) noteProcessed(from, to int, req *resources.TwoPCRequest, before,
 		after.Accepted.Sender.Equal(req.Sender) && !(before.AcceptedPreCommit && before.Accepted.SenderTime == req.SenderTime && before.Accepted.Sender.Equal(req.Sender)) {
 		nd.acceptedAt[accKey{from, req.SenderTime}] = w.seq
 	}
+	// diagnosis of "promise overridden by a higher version": promise -> overwritten -> released below it
+	bs := -1
+	if before.AcceptedPreCommit {
+		bs = w.senderIdx(before.Accepted.Sender)
+	}
+	if _, fresh := nd.acceptedAt[accKey{from, req.SenderTime}]; fresh && nd.acceptedAt[accKey{from, req.SenderTime}] == w.seq &&
+		bs >= 0 && bs != from && before.Accepted.Version < req.Version {
+		if nd.overridden == nil {
+			nd.overridden = &promise{sender: bs, version: before.Accepted.Version, time: before.Accepted.SenderTime, by: from}
+		} else {
+			nd.overridden.by = from // overwritten again: the oldest forgotten promise is the one that matters
+		}
+	}
+	if req.RequestType == resources.Abort && before.AcceptedPreCommit && !after.AcceptedPreCommit && nd.overridden != nil {
+		if after.Version < nd.overridden.version {
+			nd.forgot = append(nd.forgot, *nd.overridden)
+		}
+		nd.overridden = nil
+	}
+	if after.Version > before.Version {
+		if nd.overridden != nil && nd.overridden.version <= after.Version {
+			nd.overridden = nil
+		}
+		k := 0
+		for _, f := range nd.forgot {
+			if f.version > after.Version {
+				nd.forgot[k] = f
+				k++
+			}
+		}
+		nd.forgot = nd.forgot[:k]
+	}
 	// did an Abort of the accepted proposer, not older than the accepted pre-commit, leave the acceptor locked?
 	if req.RequestType == resources.Abort && before.AcceptedPreCommit && after.AcceptedPreCommit &&
 		before.Accepted.Sender.Equal(req.Sender) &&
@@ -948,7 +1012,7 @@ func (w *world) nodeOp1(nd *node, siblingRefuses bool) {
 		nd.pc++
 	case 'W':
 		var v tla.Value
-		if nd.script[nd.sec] == "rmw" {
+		if nd.script[nd.sec] == "rmw" || nd.script[nd.sec] == "rmwa" {
 			v = tla.MakeNumber(nd.readVal + 1)
 		} else {
 			v = tla.MakeNumber(int32(100 + 10*nd.idx + nd.sec))
@@ -974,10 +1038,17 @@ func (w *world) nodeOp1(nd *node, siblingRefuses bool) {
 			w.signal()
 		}()
 		nd.backoff = true // cleared in settle when a PreCommit message appears or the operation ends
+	case 'X':
+		w.logf("   n%d: scripted: a sibling resource refuses, the section is aborted after its pre-commit succeeded", nd.idx)
+		nd.phase = 'a'
+		w.startAsync(nd, 'A', func() { nd.res.Abort(iface) })
 	case 'C':
 		// the section pre-committed successfully for version pcVersion and now commits: it has won that version
 		target := nd.pcVersion
 		if prev, ok := w.winners[target]; ok {
+			if r, y := w.promiseOverridden(target, prev.node, prev.pcTime, nd.idx, nd.lastPCTime); r >= 0 {
+				w.fail("two-winners/promise-overridden-by-higher-version", "version %d: n%d (value %s) and n%d (value %s) both pre-committed successfully and commit: replica n%d had accepted the pre-commit of the one for version %d, then accepted n%d's pre-commit for a higher version without installing version %d (its promise was overwritten), was released by n%d's Abort while still at version %d, and then accepted the other's pre-commit for version %d", target, prev.node, prev.val, nd.idx, nd.wval, r, target, y, target, y, target-1, target)
+			}
 			w.fail("two-winners", "version %d: n%d (section %d attempt %d, value %s) and n%d (section %d attempt %d, value %s) both pre-committed successfully and commit", target, prev.node, prev.sec, prev.attempt, prev.val, nd.idx, nd.sec, nd.attempt, nd.wval)
 		}
 		if cur := w.dump(nd.idx).Version + 1; cur != target {
@@ -986,7 +1057,7 @@ func (w *world) nodeOp1(nd *node, siblingRefuses bool) {
 		if nd.hasRead && nd.readVer != target-1 {
 			w.fail("stale-read-commits", "n%d read version %d (value %d) but its section commits as version %d: the value it read was overwritten before it committed and it did not abort", nd.idx, nd.readVer, nd.readVal, target)
 		}
-		w.winners[target] = winner{nd.idx, nd.sec, nd.attempt, valStr(nd.wval)}
+		w.winners[target] = winner{nd.idx, nd.sec, nd.attempt, valStr(nd.wval), nd.lastPCTime}
 		w.logf("   n%d: Commit() for version %d value %s", nd.idx, target, nd.wval)
 		nd.commits = target
 		nd.committedPC[nd.lastPCTime] = true
@@ -1162,6 +1233,31 @@ func (w *world) final() {
 		w.fail("no-progress", "after quiescence every node in turn ran an increment alone (no faults, all messages delivered, 3 attempts each) and none could commit: %s", strings.Join(st, " "))
 	}
 	w.c.Outcome("probe-ok=" + strconv.Itoa(ok))
+}
+
+// promiseOverridden looks for a replica that explains two winners x and z of version k by the pattern:
+// it accepted x's winning pre-commit for k, overwrote that promise with a higher-version pre-commit of some y
+// without installing k, was released by y's Abort below k, and then accepted z's winning pre-commit for k
+// (or the same with x and z exchanged).  Returns the replica and y, or -1.
+func (w *world) promiseOverridden(k, x int, xTime int64, z int, zTime int64) (int, int) {
+	for i, nd := range w.nodes {
+		for _, f := range nd.forgot {
+			if f.version != k {
+				continue
+			}
+			if f.sender == x && f.time == xTime && z != x {
+				if _, ok := nd.acceptedAt[accKey{z, zTime}]; ok {
+					return i, f.by
+				}
+			}
+			if f.sender == z && f.time == zTime && z != x {
+				if _, ok := nd.acceptedAt[accKey{x, xTime}]; ok {
+					return i, f.by
+				}
+			}
+		}
+	}
+	return -1, -1
 }
 
 // relInfo gathers what the oracle's diagnosis depends on for the proposal of node s whose PreCommit carried
@@ -1405,6 +1501,15 @@ func (w *world) newKeyCtx() *keyCtx {
 		for _, bc := range nd.bcasts {
 			k.times[i].add(bc.time)
 		}
+		if nd.overridden != nil {
+			k.times[nd.overridden.sender].add(nd.overridden.time)
+		}
+		for _, f := range nd.forgot {
+			k.times[f.sender].add(f.time)
+		}
+	}
+	for _, x := range w.winners {
+		k.times[x.node].add(x.pcTime)
 	}
 	for _, m := range w.pend {
 		k.times[m.from].add(m.req.SenderTime)
@@ -1475,6 +1580,25 @@ func (w *world) nodeSeg(k *keyCtx, i int) {
 				w.kStr(",")
 			}
 		}
+	}
+	if nd.overridden != nil {
+		w.kStr(" ov")
+		w.kInt(k.lab[nd.overridden.sender])
+		w.kStr(".")
+		w.kInt(nd.overridden.version)
+		w.kStr(".")
+		w.kInt(k.times[nd.overridden.sender].rank(nd.overridden.time))
+		w.kStr(".")
+		w.kInt(k.lab[nd.overridden.by])
+	}
+	if len(nd.forgot) > 0 {
+		var fs []string
+		for _, f := range nd.forgot {
+			fs = append(fs, fmt.Sprintf("%d.%d.%d.%d", k.lab[f.sender], f.version, k.times[f.sender].rank(f.time), k.lab[f.by]))
+		}
+		sort.Strings(fs)
+		w.kStr(" fg")
+		w.kStr(strings.Join(fs, ","))
 	}
 	w.kStr(" s")
 	w.kInt(nd.sec)
@@ -1815,6 +1939,8 @@ func (w *world) keyWith(k *keyCtx) string {
 			w.kInt(x.sec)
 			w.kStr(".")
 			w.kInt(x.attempt)
+			w.kStr(".")
+			w.kInt(k.times[x.node].rank(x.pcTime))
 		}
 	}
 	return string(w.kb)
@@ -1830,6 +1956,25 @@ func (w *world) run() {
 		maxSteps = 400
 	}
 	w.check(-1)
+	for _, want := range w.cfg.Prefix {
+		w.tick()
+		free, _ := w.enabledAll()
+		found := false
+		for _, mv := range free {
+			if mv.spec() == want {
+				w.check(w.apply(mv))
+				found = true
+				break
+			}
+		}
+		if !found {
+			var have []string
+			for _, mv := range free {
+				have = append(have, mv.spec())
+			}
+			panic(harnessBug(fmt.Sprintf("prefix move %q is not enabled (enabled: %v) [%s]", want, have, w.cfg.name())))
+		}
+	}
 	for {
 		w.tick()
 		free, faults := w.enabled()
